@@ -380,6 +380,22 @@ class Inliner(object):
                         return None
                     nb['term'] = _map(copy.deepcopy(cont['term']), thr)
                     nb['succ'] = list(cont['succ'])
+        # tail-call threading: `return Helper(..);` - the continuation does nothing but return the result, so every return
+        # site of the helper returns its own value (the program the author split the function from)
+        if not void and len(cont['ev']) == 1 and cont['ev'][0].get('k') == 'ret' and 'term' not in cont:
+            r0 = cont['ev'][0].get('e')
+            while isinstance(r0, dict) and r0.get('k') == 'cast':
+                r0 = r0.get('e')
+            if isinstance(r0, dict) and r0.get('k') == 'var' and r0.get('n') == ret_var['n']:
+                for nb in newblocks:
+                    if nb['succ'] == [cont_id] and nb['ev'] and nb['ev'][-1].get('inl_ret') and 'term' not in nb:
+                        a = nb['ev'][-1]
+                        rr = dict(cont['ev'][0])
+                        rr['e'] = a['r']
+                        rr['line'] = a.get('line', rr.get('line'))
+                        rr['src'] = a.get('src', rr.get('src'))
+                        nb['ev'][-1] = rr
+                        nb['succ'] = list(cont['succ'])
         F.setdefault('inlined', []).append(G.get('name'))
         return True
 
